@@ -197,10 +197,10 @@ def render_with_imp(d, rng):
         line = D.render_cell(c, lay, with_imp=False)
         if 'imp_text' in c.hints:
             line += '  ' + c.hints['imp_text']
-        out.append(D.wrap_card(line))
+        out.append(D.wrap_card(line, lay=lay))
     out.append('')
     for s in d.surfs:
-        out.append(D.wrap_card(D.render_surf(s)))
+        out.append(D.wrap_card(D.render_surf(s), lay=lay))
     out.append('')
     for num, (m, sp) in d.trs.items():
         out.append(D.wrap_card(D.tr_card(num, m, sp.get('star', False)) if 'raw' not in sp else sp['raw']))
@@ -208,7 +208,7 @@ def render_with_imp(d, rng):
         out.append(D.wrap_card('m%d %s' % (num, ' '.join('%s %s' % (z, f) for z, f in comp))))
     if d.imp_cards:
         for part, toks in d.imp_cards.items():
-            out.append(D.wrap_card('imp:%s %s' % (part, ' '.join(toks))))
+            out.append(D.wrap_card('imp:%s %s' % (part, ' '.join(toks)), lay=lay))
     out.append('')
     return '\n'.join(out)
 
